@@ -98,19 +98,73 @@ func (e *Env) RParseGuard() {
 		e.Run.Violation("R-NOPANIC", "ParseFile exists", "", "missing")
 		return
 	}
-	// ParseFile as a function of its inputs: the decorated file (with the parse error alongside)
-	// exactly when the parser gave a file or no error and decoration succeeded; the parse error
-	// alone exactly when there is an error and no file (DecorateFile is never reached with a nil
-	// file: its result appears only in returns under the first condition); the decoration error
-	// otherwise. The parse always asks for comments.
+	// ParseFile, on path conditions over its inputs (locals replaced by their definitions):
+	//  (1) DecorateFile is only reached with a file: the condition of every call excludes
+	//      "parser returned nil and an error" (go/parser's contract: no error ⇒ a file);
+	//  (2) a parse error is always reported: every return whose error result is nil is
+	//      unreachable when the parser returned an error, and a return of some other error is
+	//      either that error being non-nil or likewise unreachable.
+	// Which of (file, err) / (nil, err) is returned for a partial file is not part of C15.
 	const pf = `parser.ParseFile(d.Fset, filename, src, mode|parser.ParseComments)`
-	const df = `d.DecorateFile(` + pf + `)`
-	const usable = `(res1(` + pf + `) == nil || ` + pf + ` != nil)`
-	e.checkReturnsZ("R-NOPANIC", c, fd, "ParseFile", "nil", []wantReturn{
-		{what: "the parse error is returned alongside the decorated (possibly partial) file", result: df, err: `res1(` + pf + `)`, cond: usable + ` && res1(` + df + `) == nil`},
-		{what: "a nil file from the parser is returned as its error, before decoration", result: "nil", err: `res1(` + pf + `)`, cond: `!` + usable},
-		{what: "a decoration error is returned", result: "nil", err: `res1(` + df + `)`, cond: usable + ` && res1(` + df + `) != nil`},
-	}, "")
+	perrNonNil := canonText(`res1(` + pf + `) != nil`)
+	undo := c.InstallReaching(fd)
+	defer undo()
+	nCalls := 0
+	ast.Inspect(fd.Body, func(n ast.Node) bool {
+		call, ok := n.(*ast.CallExpr)
+		if !ok || !schema.IsMethod(c.Callee(call), load.PkgDecorator, "Decorator", "DecorateFile") || len(call.Args) != 1 {
+			return true
+		}
+		nCalls++
+		arg := canonText(c.ExprStr(call.Args[0]))
+		cond, okc := pathCond(c, fd.Body.List, call)
+		key := "ParseFile: a nil file from the parser never reaches decoration"
+		if !okc {
+			e.Run.Undecided("R-NOPANIC", key, e.Prog.Pos(call.Pos()), "path condition not computable")
+			return true
+		}
+		if !strings.HasPrefix(arg, "parser.ParseFile(") {
+			e.Run.Violation("R-NOPANIC", key, e.Prog.Pos(call.Pos()), "DecorateFile is called with `"+arg+"`, not with the parser's result")
+			return true
+		}
+		excl, dec := unsatWith(cond, arg+" == nil && res1("+arg+") != nil")
+		if !dec {
+			e.Run.Undecided("R-NOPANIC", key, e.Prog.Pos(call.Pos()), "condition not propositional: "+cond)
+			return true
+		}
+		e.Run.Check("R-NOPANIC", key, e.Prog.Pos(call.Pos()), excl,
+			"DecorateFile(f) is reachable under `"+cond+"`, which allows f == nil with a parse error (broken input: empty file, no package clause): decorating a nil *ast.File dereferences it")
+		return true
+	})
+	e.Run.Floor("R-NOPANIC", "DecorateFile calls in ParseFile", nCalls, 1)
+	rets, okr := returnsOf(c, fd)
+	if !okr {
+		e.Run.Undecided("R-NOPANIC", "ParseFile returns", e.Prog.Pos(fd.Pos()), "path condition not computable")
+		return
+	}
+	for _, r := range rets {
+		key := "ParseFile: a parse error is reported through the error result"
+		if len(r.results) != 2 {
+			e.Run.Undecided("R-NOPANIC", key, e.Prog.Pos(r.pos), "bare return")
+			continue
+		}
+		r1 := canonText(r.results[1])
+		if strings.HasPrefix(r1, "res1(parser.ParseFile(") {
+			e.Run.OK("R-NOPANIC", key, e.Prog.Pos(r.pos), "returns the parser's error")
+			continue
+		}
+		good, dec := unsatWith(r.cond, perrNonNil)
+		if r1 != "nil" && (!good || !dec) {
+			// another error: fine when it is known to be non-nil here
+			good, dec = unsatWith(r.cond, r1+" == nil")
+		}
+		if !dec {
+			e.Run.Undecided("R-NOPANIC", key, e.Prog.Pos(r.pos), "condition not propositional: "+r.cond)
+			continue
+		}
+		e.Run.Check("R-NOPANIC", key, e.Prog.Pos(r.pos), good,
+			"returns ("+r.results[0]+", "+r1+") under `"+r.cond+"`, which is reachable when the parser reported an error: the syntax error is swallowed")
+	}
 }
 
 // RMapsAllocated: maps of the per-file decorator/restorer state are allocated before use.
